@@ -51,8 +51,11 @@ log="$work/fuzz.log"
 bin=$(ls "$TGT"/fuzz/*/release/"$t" 2>/dev/null | head -1)
 [ -x "$bin" ] || { echo "INCONCLUSIVE: fuzz binary for $t not found"; exit 2; }
 start=$(date +%s)
-( cd "$work" && "$bin" "$corpus" -artifact_prefix="$art/" -max_total_time="$secs" -seed="$seed" -jobs="$jobs" -workers="$jobs" \
+# (hard wall-clock limit from outside: libFuzzer's own timeout handler runs in signal context and was seen to
+#  dead-lock on a futex after "ALARM: working on the last Unit", leaving one job asleep for ever)
+( cd "$work" && timeout -s KILL $((secs + 90)) "$bin" "$corpus" -artifact_prefix="$art/" -max_total_time="$secs" -seed="$seed" -jobs="$jobs" -workers="$jobs" \
    -timeout=25 -rss_limit_mb=4096 -max_len=4096 -len_control=0 >"$log" 2>&1 )
+pkill -KILL -f "release/$t $corpus" 2>/dev/null
 end=$(date +%s)
 runs=0
 for l in "$work"/fuzz-*.log; do
@@ -68,6 +71,9 @@ for f in "$art"/crash-*; do
   if [ $rc = 1 ]; then code=1; nviol=$((nviol+1)); fi
 done
 for f in "$art"/timeout-* "$art"/oom-*; do [ -f "$f" ] && nother=$((nother+1)); done
+# a job that reported an ALARM but left no artifact (its handler hung and it was killed from outside)
+alarms=$(cat "$work"/fuzz-*.log 2>/dev/null | grep -ac '^ALARM')
+[ "$nother" = 0 ] && [ "${alarms:-0}" -gt 0 ] && nother=$alarms
 if [ $code = 0 ] && [ $nother -gt 0 ]; then echo "INCONCLUSIVE: libFuzzer target $t reported $nother timeouts / out-of-memory inputs (kept in $art)"; code=2; fi
 python3 - "$id" "$t" "${runs:-0}" "${cov:-0}" "$ncorp" "$((end-start))" "$jobs" "$nviol" "$nother" <<'EOF'
 import json, sys
